@@ -17,4 +17,8 @@ returned (a panic is neither). -/
 def holdsExpand (limit : Nat) (off : Int) (ok errored : Bool) (sizeAfter : Nat) (othersEqual : Bool) : Bool :=
   if ok then ((sizeAfter : Int) == (limit : Int) + off) && othersEqual else errored
 
+/-- The receive limit as the property states it: a message of uncompressed size `size` is
+accepted iff it does not exceed the limit (so `limit` passes and `limit + 1` does not). -/
+def accepts (limit size : Nat) : Bool := size ≤ limit
+
 end ConfModel.Padding
